@@ -22,6 +22,8 @@ PROPS["C10"] = {
          "bounds": {"strings": "one of host/scheme/path symbolic, len<=3 over {space,ws,letter}; port len<=6 over [+-0-9x]", "num_port": "full int64"}},
         {"pkg": "health", "name": "VerifC10_Threshold", "quick": {}, "thorough": {}, "reach": ["end", "fatal"],
          "bounds": {"failure_threshold": "[-1,4]", "checks": 6, "stop_at": "[0,6]"}},
+        {"pkg": "health", "name": "VerifC10_Lifecycle", "quick": {"d": 1}, "thorough": {"d": 2},
+         "bounds": {"initial delay": "{0,2}s", "stop": "0 / 1 / 3 s after Start (before or after the delay elapsed)", "virtual time": "yes"}},
     ],
     "stubs": ["go-health scheduler: OnComplete after each check with running ContiguousFailures (contract)"],
     "assumptions": [],
@@ -35,6 +37,8 @@ PROPS["C02"] = {
         {"pkg": "app", "name": "VerifC02_Loop", "quick": {"d": 1}, "thorough": {"d": 2}, "replay_repeat": 3, "reach": ["end", "relaunch"],
          "bounds": {"attempts": "<=4 scripted exits (codes 0/3 per attempt), then runs until stopped", "policy": "no/always/on_failure/exit_on_failure",
                     "max_restarts": "{0,1,2}", "backoff_seconds": "{0,2}", "stop request": "none or one, at any labelled instant"}},
+        {"pkg": "app", "name": "VerifC02_Shutdown", "quick": {"d": 1}, "thorough": {"d": 2}, "replay_repeat": 6,
+         "bounds": {"N": 2, "scenario": "restart-always worker whose command exits by itself at any point of a project shutdown (ordered or unordered) that is kept busy by a slow process with a 2s shutdown timeout"}},
     ],
     "stubs": [],
     "assumptions": ["max_restarts >= 0 (the statement is silent on negative values)", "second-valued options within +-2^31 (no Duration overflow)"],
@@ -79,6 +83,8 @@ PROPS["C12"] = {
     "harnesses": [
         {"pkg": "app", "name": "VerifC12_RevDeps3", "quick": {}, "thorough": {}, "replay_repeat": 40,
          "bounds": {"N": 3, "edges": "all 2^6 dependency relations", "running": "all subsets", "map order": "every iteration order"}},
+        {"pkg": "app", "name": "VerifC12_Project", "quick": {"d": 0}, "thorough": {"d": 1}, "replay_repeat": 8, "reach": ["end", "unrelated.stopped.concurrently"],
+         "bounds": {"shapes": "chain / fan-in / fan-out / diamond", "running at shutdown": "every subset (the others have completed)", "termination latency": "immediate or only when nothing else can happen, per process"}},
     ],
     "stubs": [],
     "assumptions": [],
@@ -128,6 +134,8 @@ PROPS["C19"] = {
 
 PROPS["C03"] = {
     "harnesses": [
+        {"pkg": "app", "name": "VerifC03_AlreadyStopping", "quick": {"d": 1}, "thorough": {"d": 2}, "replay_repeat": 6,
+         "bounds": {"N": 2, "scenario": "StopProcess on a slow-dying process, then ShutDownProject (ordered or not) while it is still Terminating"}},
         {"pkg": "app", "name": "VerifC03_Project", "quick": {"d": 1}, "thorough": {"d": 2}, "replay_repeat": 8, "reach": ["end", "run.returned", "shutdown.returned"],
          "bounds": {"N": 2, "shapes": "independent / b after a started / b after a completed", "policy of a": "no/always",
                     "a": "exits by itself or runs until stopped", "shutdown instant": "every labelled life-cycle point of a or b (27 alternatives)"}},
@@ -186,7 +194,7 @@ _lv("C19", "Every JSON handler of pc_api.go against a recording IProject with sy
 PROPS["C01"] = {
     "harnesses": [
         {"pkg": "app", "name": "VerifC01_Gating", "quick": {"d": 0}, "thorough": {"d": 1}, "replay_repeat": 8,
-         "bounds": {"N": 3, "edges": "every subset of {p1->p0,p2->p0,p2->p1} x {completed, completed_successfully, log_ready, started}", "dependency behaviour": "exit 0 / exit 3 / runs until stopped",
+         "bounds": {"N": 3, "edges": "every subset of {p1->p0,p2->p0,p2->p1} x {completed, completed_successfully, log_ready, started}", "dependency behaviour": "exit 0 / exit 3 / killed by a signal (-1) / runs until stopped",
                     "ready line": "printed or not"}},
         {"pkg": "app", "name": "VerifC01_GatingProbes", "quick": {"d": 0}, "thorough": {"d": 1}, "replay_repeat": 2, "validate_strict": False,
          "bounds": {"N": 3, "edges": "as above with at least one process_healthy edge", "readiness probe": "one check, success or failure, delivered at any instant after the launch"}},
